@@ -5,6 +5,7 @@
 package c01
 
 import (
+	"bytes"
 	"encoding/binary"
 	"encoding/hex"
 	"encoding/json"
@@ -423,7 +424,14 @@ func worker(args []string) int {
 	thorough := reg.Tier == "thorough"
 	if c.Mode == "replay" {
 		var cs Case
-		if err := json.Unmarshal([]byte(args[1]), &cs); err != nil {
+		raw := []byte(args[1])
+		if strings.HasPrefix(args[1], "@") {
+			var err error
+			if raw, err = os.ReadFile(args[1][1:]); err != nil {
+				panic(err)
+			}
+		}
+		if err := json.Unmarshal(raw, &cs); err != nil {
 			panic(err)
 		}
 		in, err := build(cs.Chain)
@@ -737,6 +745,36 @@ func seeds4() [][]byte {
 	st := pkt.V4{Op: 1, HType: 1, HLen: 6, Xid: 0x5a, Opts: []pkt.Opt4{{Code: 53, Data: []byte{1}}}}
 	copy(st.CHAddr[:], []byte{2, 0, 0, 0, 0x5a, 1})
 	out = append(out, st.Bytes())
+	// the largest datagrams a UDP socket can deliver (65 507 octets) and the largest the
+	// receive buffer holds (65 535): filled with an option that the reply echoes (client
+	// identifier / relay agent information, split over consecutive instances per RFC 3396) or
+	// with one that it does not (vendor class), on every branch of the reply-destination cascade
+	for _, total := range []int{65507, 65535, 32768} {
+		for _, code := range []byte{61, 82, 60} {
+			for variant := 0; variant < 4; variant++ {
+				j := pkt.V4{Op: 1, HType: 1, HLen: 6, Xid: 0x4a, Opts: []pkt.Opt4{{Code: 53, Data: []byte{1 + 2*byte(variant%2)}}}}
+				copy(j.CHAddr[:], []byte{2, 0, 0, 0, 0x4a, byte(variant)})
+				switch variant {
+				case 1:
+					j.Flags = 0x8000
+				case 2:
+					j.GI = [4]byte{10, 10, 10, 254}
+				case 3:
+					j.CI = [4]byte{10, 10, 10, 101}
+				}
+				room := total - 240 - 3 - 1
+				for room >= 3 {
+					n := 255
+					if room-2 < n {
+						n = room - 2
+					}
+					j.Opts = append(j.Opts, pkt.Opt4{Code: code, Data: bytes.Repeat([]byte{0x41}, n)})
+					room -= n + 2
+				}
+				out = append(out, j.Bytes())
+			}
+		}
+	}
 	return out
 }
 
@@ -933,7 +971,7 @@ func replay(r *ev.Run, raw json.RawMessage) {
 		pd.Replay(r, "C01", raw)
 		return
 	}
-	if probe["config"] != nil {
+	if probe["config"] != nil && probe["history"] != nil {
 		lease.Replay(r, "C01", raw)
 		return
 	}
@@ -947,7 +985,16 @@ func replay(r *ev.Run, raw json.RawMessage) {
 		return
 	}
 	b, _ := json.Marshal(c)
-	res := reg.Spawn(r, "C01", 5*time.Minute, `{"proto":0,"mode":"replay"}`, string(b))
+	arg := string(b)
+	if len(arg) > 60000 {
+		// a single argv string is limited to 128 KiB: hand large cases over in a file
+		f := filepath.Join(srv.Scratch(), "c01-replay-case.json")
+		if err := os.WriteFile(f, b, 0o644); err != nil {
+			panic(err)
+		}
+		arg = "@" + f
+	}
+	res := reg.Spawn(r, "C01", 5*time.Minute, `{"proto":0,"mode":"replay"}`, arg)
 	if res.Died || res.Hung {
 		r.Violate("C01/process-died/replay", lastLines(res.Output), c)
 	}
